@@ -156,6 +156,12 @@ def mg_unordered(case, ctx):
             for c in cols:
                 f[c] = f[c].astype(case["val_dtype"])
         extra["dtypes"] = {c: np.dtype(case["val_dtype"]) for c in cols}
+    if case.get("stored_id_dtype"):             # compact bin-ID columns asked for in the file (all IDs fit)
+        extra.setdefault("dtypes", {}).update({"bin1_id": np.dtype(case["stored_id_dtype"]), "bin2_id": np.dtype(case["stored_id_dtype"])})
+    if case.get("assembly"):
+        extra["assembly"] = case["assembly"]
+    if case.get("meta_tag"):
+        extra["metadata"] = {"tag": case["meta_tag"], "nested": {"k": [1, 2]}}
     if case["form"] == "dict":
         frames = [{k: v.values for k, v in f.items()} for f in frames]
     out = os.path.join(d, "out.cool")
@@ -192,5 +198,8 @@ def mg_unordered(case, ctx):
                 g["pixels"].create_dataset(name, data=np.round(vals).astype(np.int64))
             if "sum" in g.attrs:
                 g.attrs["sum"] = int(round(float(g.attrs["sum"]) * scale))
+    md = c.info.get("metadata", {})
     return {"err": err, "px": px,
-            "raw": project.raw_uri(uri), "temp_after": sorted(os.listdir(tmpd)), "two_pass": len(made) > 1}
+            "raw": project.raw_uri(uri), "temp_after": sorted(os.listdir(tmpd)), "two_pass": len(made) > 1,
+            "assembly": str(c.info.get("genome-assembly", "MISSING")),
+            "meta_tag": project.to_int(md.get("tag", 0)) if isinstance(md, dict) else -1}
